@@ -57,5 +57,5 @@ if __name__ == "__main__":
     by = {}
     for sid in ids:
         by.setdefault(sid.split("-")[0], []).append(sid)
-    with cf.ThreadPoolExecutor(3) as ex:
+    with cf.ThreadPoolExecutor(2) as ex:
         list(ex.map(one_pid, [(pid, v, head) for pid, v in sorted(by.items())]))
